@@ -16,7 +16,7 @@ TITLE = ("Typestate/dominance check at every free() in the library: (R1) the fre
 WIPE_PRIMS = {"memset_s": (0, 2), "explicit_bzero": (0, 1), "OPENSSL_cleanse": (0, 1)}
 
 
-def wipe_info(f):
+def wipe_info_single(f):
     """(ptr_arg, len_arg) when f is a volatile byte-zeroing loop over exactly len bytes from ptr; else (None, why)."""
     stores = [i for i in f.all_insts() if i["op"] == "store"]
     calls = [i for i in f.all_insts() if i["op"] == "call" and not str(i.get("intrinsic", "")).startswith("llvm.dbg")]
@@ -122,6 +122,246 @@ def wipe_info(f):
     return (parg, carg), "volatile byte loop"
 
 
+def _wlf_add(a, b, k=1):
+    d = dict(a[1])
+    for s_, c in b[1]:
+        d[s_] = d.get(s_, 0) + k * c
+    return (a[0] + k * b[0], tuple(sorted(((s_, c) for s_, c in d.items() if c), key=repr)))
+
+
+def _wlf_norm(a):
+    """W*(n / W) + (n & (W-1)) == n for a power of two W (the only identity the word-wise wipes need)."""
+    d = dict(a[1])
+    for s_ in list(d):
+        if s_[0] == "div" and s_ in d:
+            _, k, w = s_
+            m = ("and", k, w - 1)
+            c = d[s_]
+            if w > 0 and w & (w - 1) == 0 and c % w == 0 and d.get(m) == c // w:
+                t = c // w
+                del d[s_]
+                del d[m]
+                d[("a", k)] = d.get(("a", k), 0) + t
+    return (a[0], tuple(sorted(((s_, c) for s_, c in d.items() if c), key=repr)))
+
+
+def _wlf_str(a):
+    def atom(s_):
+        return "P%d" % s_[1] if s_[0] == "a" else ("(P%d/%d)" % (s_[1], s_[2]) if s_[0] == "div" else ("(P%d&%d)" % (s_[1], s_[2]) if s_[0] == "and" else str(s_)))
+    parts = ["%s%s" % ("" if c == 1 else "%d*" % c, atom(s_)) for s_, c in a[1]]
+    if a[0] or not parts:
+        parts.append(str(a[0]))
+    return "+".join(parts)
+
+
+def wipe_info_multi(f):
+    """Several volatile zero-store loops in sequence (a word loop followed by a byte tail, with or without an
+    alignment guard): on EVERY path through the loop-collapsed CFG the stored intervals, as linear forms over
+    the parameters with the atoms n/W and n&M, must join to exactly [ptr, ptr+len).  Returns like wipe_info."""
+    insts = list(f.all_insts())
+    stores = [i for i in insts if i["op"] == "store"]
+    if any(i["op"] == "call" and not str(i.get("intrinsic", "")).startswith("llvm.dbg") for i in insts):
+        return None, "contains calls"
+    loops = f.loops()
+    if not loops or len(loops) > 4:
+        return None, "%d loops" % len(loops)
+    hs = list(loops)
+    for x in hs:
+        for y in hs:
+            if x != y and loops[x] & loops[y]:
+                return None, "nested or overlapping loops"
+    # per loop: (cursor phi, width, counter phi, cursor init operand, counter init operand, exit block)
+    L = {}
+    for h, body in loops.items():
+        ss = [st for st in stores if f.bb_of[st["id"]] in body]
+        if len(ss) != 1:
+            return None, "a loop with %d stores" % len(ss)
+        st = ss[0]
+        if not st.get("volatile"):
+            return None, "store is not volatile"
+        if st["ops"][0][0] != "c" or int(st["ops"][0][1]) != 0:
+            return None, "stored value is not the constant 0"
+        pp = st["ops"][1]
+        if pp[0] != "i" or f.insts[pp[1]]["op"] != "phi" or f.bb_of[pp[1]] != h:
+            return None, "store address is not a loop cursor"
+        pphi = f.insts[pp[1]]
+        c0 = pstep = None
+        for o, pb in zip(pphi["ops"], pphi["inblocks"]):
+            if pb in body:
+                gi = f.insts.get(o[1]) if o[0] == "i" else None
+                if gi and gi["op"] == "getelementptr" and gi["gep"]["base"] == ["i", pphi["id"]] and not gi["gep"]["vars"]:
+                    pstep = gi["gep"]["coff"]
+            else:
+                c0 = o
+        if c0 is None or pstep != st["size"]:
+            return None, "cursor does not advance by the store size"
+        t = f.term(h)
+        if t["op"] != "br" or len(t["succs"]) != 2 or t["ops"][0][0] != "i":
+            return None, "loop header does not test the counter"
+        c = f.insts[t["ops"][0][1]]
+        if c["op"] != "icmp" or c["pred"] not in ("ugt", "ne") or c["ops"][1][0] != "c" or int(c["ops"][1][1]) != 0:
+            return None, "loop condition is not `count > 0`"
+        cp = c["ops"][0]
+        if cp[0] != "i" or f.insts[cp[1]]["op"] != "phi" or f.bb_of[cp[1]] != h:
+            return None, "loop counter is not a phi"
+        cphi = f.insts[cp[1]]
+        n0 = cdec = None
+        for o, pb in zip(cphi["ops"], cphi["inblocks"]):
+            if pb in body:
+                bi = f.insts.get(o[1]) if o[0] == "i" else None
+                if bi and bi["op"] in ("add", "sub") and bi["ops"][0] == ["i", cphi["id"]] and bi["ops"][1][0] == "c":
+                    k = int(bi["ops"][1][1])
+                    bits = bi.get("bits", 64)
+                    if bi["op"] == "add":
+                        k = (1 << bits) - k if k > (1 << (bits - 1)) else -k
+                    cdec = k
+            else:
+                n0 = o
+        if n0 is None or cdec != 1:
+            return None, "counter is not decremented once per store"
+        if t["succs"][0] not in body or t["succs"][1] in body:
+            return None, "loop continues on the false edge"
+        for b in body:
+            for s_ in f.succs[b]:
+                if s_ not in body and b != h:
+                    return None, "loop has a second exit"
+        if len([st2 for st2 in stores if f.bb_of[st2["id"]] in body]) != 1:
+            return None, "more than one store in a loop"
+        L[h] = (pphi["id"], st["size"], cphi["id"], c0, n0, t["succs"][1])
+    if any(f.bb_of[st["id"]] not in set().union(*loops.values()) for st in stores):
+        return None, "store outside the loops"
+    ptr_args = set()
+
+    def ev(op, env, depth=0):
+        """('p', arg, lf) pointer into parameter arg / ('n', lf) number / None"""
+        if depth > 24:
+            return None
+        if op[0] == "c":
+            return ("n", (int(op[1]), ()))
+        if op[0] == "a":
+            ty = f.params[op[1]]["type"]
+            return ("p", op[1], (0, ())) if ty.endswith("*") else ("n", (0, ((("a", op[1]), 1),)))
+        if op[0] != "i":
+            return None
+        if op[1] in env:
+            return env[op[1]]
+        i = f.insts[op[1]]
+        o = i["op"]
+        if o in CASTS or o in ("zext",):
+            return ev(i["ops"][0], env, depth + 1)
+        if o == "getelementptr":
+            b = ev(i["gep"]["base"], env, depth + 1)
+            if b is None or b[0] != "p":
+                return None
+            off = _wlf_add(b[2], (i["gep"]["coff"], ()))
+            for (v, sc) in i["gep"]["vars"]:
+                x = ev(v, env, depth + 1)
+                if x is None or x[0] != "n":
+                    return None
+                off = _wlf_add(off, x[1], sc)
+            return ("p", b[1], off)
+        if o in ("udiv", "lshr", "and"):
+            x = i["ops"][0]
+            k = i["ops"][1]
+            if x[0] == "a" and k[0] == "c" and not f.params[x[1]]["type"].endswith("*"):
+                kv = int(k[1])
+                if o == "udiv" and kv > 0:
+                    return ("n", (0, ((("div", x[1], kv), 1),)))
+                if o == "lshr" and kv < 32:
+                    return ("n", (0, ((("div", x[1], 1 << kv), 1),)))
+                if o == "and":
+                    return ("n", (0, ((("and", x[1], kv), 1),)))
+            return None
+        if o in ("add", "sub"):
+            a, b = ev(i["ops"][0], env, depth + 1), ev(i["ops"][1], env, depth + 1)
+            if a and b and a[0] == b[0] == "n":
+                return ("n", _wlf_add(a[1], b[1], 1 if o == "add" else -1))
+            return None
+        return None
+
+    paths = []
+    exitof = {h: L[h][5] for h in L}
+
+    def walk(b, prev, env, ivs, seen):
+        if len(paths) > 64:
+            return
+        env = dict(env)
+        if b in L:
+            cur, w, cnt, c0, n0, ex = L[b]
+            a, n = ev(c0, env), ev(n0, env)
+            if a is None or a[0] != "p" or n is None or n[0] != "n":
+                paths.append(("?", "loop at %s: start %s or trip count %s is not a linear form of the parameters" % (b, c0, n0)))
+                return
+            hi = _wlf_add(a[2], n[1], w)
+            ivs = ivs + [(a[1], a[2], hi)]
+            env[cur] = ("p", a[1], hi)
+            env[cnt] = ("n", (0, ()))
+            # other header phis are not modelled
+            return walk(ex, b, env, ivs, seen | {b})
+        for i in f.bbmap[b]["insts"]:
+            if i["op"] != "phi":
+                break
+            v = None
+            for o, pb in zip(i["ops"], i["inblocks"]):
+                if pb == prev:
+                    v = ev(o, env)
+            if v is not None:
+                env[i["id"]] = v
+        t = f.term(b)
+        if t["op"] == "ret":
+            paths.append(("ret", ivs))
+            return
+        for s_ in f.succs[b]:
+            if s_ in seen:
+                paths.append(("?", "cycle outside the recognised loops at %s" % s_))
+                return
+            walk(s_, b, env, ivs, seen | {b})
+
+    walk(f.entry, None, {}, [], set())
+    if not paths:
+        return None, "no path to a return"
+    plen = [k for k, p_ in enumerate(f.params) if not p_["type"].endswith("*")]
+    res = None
+    for kind, ivs in paths:
+        if kind == "?":
+            return None, ivs
+        args = {a for a, _, _ in ivs}
+        if len(args) != 1:
+            return None, "a path stores nothing" if not args else "stores through more than one parameter"
+        pa = next(iter(args))
+        rs = sorted(((lo, hi) for _, lo, hi in ivs), key=lambda r: (r[0] != (0, ()), repr(r)))
+        # chain from offset 0
+        end = (0, ())
+        rest = list(rs)
+        prog_ = True
+        while prog_ and rest:
+            prog_ = False
+            for r in rest:
+                if _wlf_norm(r[0]) == _wlf_norm(end):
+                    end = r[1]
+                    rest.remove(r)
+                    prog_ = True
+                    break
+        end = _wlf_norm(end)
+        ok = [k for k in plen if end == (0, ((("a", k), 1),))]
+        if not ok or rest:
+            return None, "on some path the %d zero-store loops cover [P%d, P%d + %s)%s, not the whole length" % (
+                len(ivs), pa, pa, _wlf_str(end), " plus detached pieces" if rest else "")
+        if res is not None and res != (pa, ok[0]):
+            return None, "paths disagree on the wiped object"
+        res = (pa, ok[0])
+    return res, "%d volatile zero-store loops joining to [ptr, ptr+len) on all %d paths" % (len(L), len(paths))
+
+
+def wipe_info(f):
+    r = wipe_info_single(f)
+    if r[0] is None and isinstance(r[1], str) and (r[1].endswith(" stores") or r[1].endswith(" loops")):
+        m = wipe_info_multi(f)
+        if m[0] is not None or "cover" in m[1]:
+            return m
+    return r
+
+
 def o3_wipe_extent(f, free_inst):
     """bytes provably zeroed by volatile stores in loops/straight-line code dominating free_inst in optimised IR."""
     total = 0
@@ -135,6 +375,17 @@ def o3_wipe_extent(f, free_inst):
             continue
         # all exits of the loop must lead to... we only need: loop dominates free
         if header not in f.dom().get(f.bb_of[free_inst["id"]], set()):
+            # a wipe loop on only SOME paths to this free (an alignment-guarded word loop): summing the
+            # dominating loops alone would under-count, so the shape is reported as not modelled
+            fb, seen, todo = f.bb_of[free_inst["id"]], {header}, [header]
+            while todo:
+                for s_ in f.succs[todo.pop()]:
+                    if s_ not in seen:
+                        seen.add(s_)
+                        todo.append(s_)
+            if fb in seen:
+                details.append("loop at %s zeroes memory on some paths to the free() only (guarded wipe loop): per-path extents are not modelled" % header)
+                return None, details
             continue
         # counter: phi with constant start N, decremented by k, exit when 0
         N = k = None
@@ -179,6 +430,17 @@ def o3_wipe_extent(f, free_inst):
             continue
         if f.inst_dominates(s["id"], free_inst["id"]):
             total += s["size"]
+        else:
+            fb, sb = f.bb_of[free_inst["id"]], f.bb_of[s["id"]]
+            seen, todo = {sb}, [sb]
+            while todo:
+                for s_ in f.succs[todo.pop()]:
+                    if s_ not in seen:
+                        seen.add(s_)
+                        todo.append(s_)
+            if fb in seen and fb != sb:
+                details.append("volatile zero store in %s lies on some paths to the free() only (guarded wipe): per-path extents are not modelled" % sb)
+                return None, details
     return total, details
 
 
